@@ -106,6 +106,7 @@ func (p *Program) LocalEffects(fn *ssa.Function) *Effects {
 func classifyAddr(a ssa.Value) Write {
 	var w Write
 	first := true
+	notFresh := false
 	var chain []FieldStep
 	for depth := 0; depth < 64; depth++ {
 		switch x := a.(type) {
@@ -133,6 +134,49 @@ func classifyAddr(a ssa.Value) Write {
 		case *ssa.UnOp:
 			if x.Op == token.MUL {
 				w.Loads++
+				// A pointer/map/slice LOADED from a local is only as fresh as what was
+				// stored there: follow the reaching definition(s) instead of the local.
+				// (A by-value struct parameter is spilled into a local; the maps and
+				// pointers inside it are the caller's shared objects.)
+				if root, _ := addrPath(x.X); root != nil {
+					if _, isAlloc := root.(*ssa.Alloc); isAlloc {
+						svs := storedValues(x.X)
+						if len(svs) == 1 {
+							// record the field steps of the address being loaded before jumping to its definition
+							for ad := x.X; ; {
+								fa, ok := ad.(*ssa.FieldAddr)
+								if !ok {
+									if ia, ok := ad.(*ssa.IndexAddr); ok {
+										ad = ia.X
+										continue
+									}
+									break
+								}
+								if st, _ := structOf(fa.X.Type()); st != nil {
+									nt := namedOf(fa.X.Type())
+									chain = append([]FieldStep{{nt, st.Field(fa.Field).Name()}}, chain...)
+									if w.Field == "" {
+										w.Struct, w.Field = nt, st.Field(fa.Field).Name()
+									}
+								}
+								ad = fa.X
+							}
+							a = svs[0]
+							continue
+						}
+						if len(svs) > 1 {
+							allFresh := true
+							for _, sv := range svs {
+								if !isFreshValue(sv) {
+									allFresh = false
+								}
+							}
+							if !allFresh {
+								notFresh = true
+							}
+						}
+					}
+				}
 				a = x.X
 				continue
 			}
@@ -181,7 +225,35 @@ func classifyAddr(a ssa.Value) Write {
 	default:
 		w.Class = RootOther
 	}
+	if notFresh && w.Class == RootFresh {
+		w.Class = RootOther
+	}
 	return w
+}
+
+// isFreshValue: an allocation made by the current activation.
+func isFreshValue(v ssa.Value) bool {
+	switch x := v.(type) {
+	case *ssa.Alloc, *ssa.MakeSlice, *ssa.MakeMap, *ssa.MakeChan:
+		return true
+	case *ssa.Const:
+		return true // nil / zero
+	case *ssa.Call:
+		if b, ok := x.Call.Value.(*ssa.Builtin); ok && (b.Name() == "new" || b.Name() == "append") {
+			return b.Name() == "new"
+		}
+	case *ssa.UnOp:
+		if x.Op == token.MUL {
+			// value copy of a fresh struct (composite literal): fresh if it contains no pointers we care about; be conservative
+			if al, ok := x.X.(*ssa.Alloc); ok {
+				_ = al
+				return true
+			}
+		}
+	case *ssa.Slice:
+		return isFreshValue(x.X)
+	}
+	return false
 }
 
 // classifyVal classifies a map/slice VALUE (not address) being mutated.
